@@ -124,4 +124,21 @@ def obligations(it, sets):
     if 'exp_range' in sets:
         for (a,) in apps.get('exp', []):
             ob.append(f'(> {a} 709.78)')
+    if 'log_underflow' in sets:
+        # a logarithm of a sum of exponentials must not see all of them underflow: re-evaluate the argument with
+        # exp(A) read as 0 whenever A < -745.13 (below the smallest subnormal) and ask whether it can reach 0
+        from .sexpr import parse, dumps as sdumps
+
+        def flush(t):
+            if isinstance(t, str):
+                return t
+            if len(t) == 2 and t[0] == 'r.exp':
+                a = flush(t[1])
+                return ['ite', ['<', a, '(- 745.13)'], '0.0', ['r.exp', a]]
+            return [flush(y) for y in t]
+        for (a,) in apps.get('log', []):
+            if 'r.exp' not in a:
+                continue
+            t = parse(a)[0]
+            ob.append(f'(<= {sdumps(flush(t))} 0.0)')
     return ob
